@@ -343,7 +343,7 @@ def parse_rvalue(s):
     s = s.strip()
     if s.startswith(('copy ', 'move ', 'const ')):
         m = re.match(r'(.*) as (.*) \((\w+(?:\(.*\))?)\)$', s)
-        if m and (not s.startswith('const ') or re.match(r'const [-\w\.]+ as ', s)):
+        if m and (not s.startswith('const ') or re.match(r'const (?:[-\w\.]+|(?:\w+::)*<impl \w+>::\w+) as ', s)):
             return ('cast', parse_operand(m.group(1)), m.group(2), m.group(3))
         return ('use', parse_operand(s))
     if s.startswith('&raw '): return ('ref', parse_place(s.split(' ', 2)[2])[0])
